@@ -65,6 +65,22 @@ func hx(b []byte) string {
 	return hex.EncodeToString(b)
 }
 
+// hostileLayout copies dst and msg into one array, dst first with the message right behind it (so dst has spare
+// capacity that is the caller's live data) and a canary at the end: a routine that appends to its arguments or
+// writes past them changes the array.
+func hostileLayout(msg, dst []byte) (m, d, whole []byte) {
+	whole = make([]byte, 0, len(dst)+len(msg)+8)
+	whole = append(append(append(whole, dst...), msg...), 0xA5, 0x5A, 0xA5, 0x5A, 0xA5, 0x5A, 0xA5, 0x5A)
+	m, d = whole[len(dst):len(dst)+len(msg)], whole[:len(dst)]
+	if len(msg) == 0 {
+		m = msg // keep the nil / empty distinction of the case
+	}
+	if len(dst) == 0 {
+		d = dst
+	}
+	return
+}
+
 func mkBytes(rng *gen.Rng, n int, nilWhenEmpty bool) []byte {
 	if n == 0 {
 		if nilWhenEmpty {
@@ -123,6 +139,8 @@ func checkExpand(c *mon.Ctx, msg, dst []byte, n int) {
 	c.Class(N + "/" + cls + "/" + msgClass(len(msg)))
 	want, werr := oh2c.ExpandXMD(msg, dst, n)
 	m0, d0 := append([]byte{}, msg...), append([]byte{}, dst...)
+	msg, dst, whole := hostileLayout(msg, dst)
+	w0 := append([]byte{}, whole...)
 	desc := func() string { return fmt.Sprintf("ExpandMsgXmd(msg=%s, dst=%s, lenInBytes=%d)", hx(m0), hx(d0), n) }
 	var got []byte
 	var err error
@@ -131,7 +149,9 @@ func checkExpand(c *mon.Ctx, msg, dst []byte, n int) {
 		c.Eval("ExpandMsgXmd", 1)
 		return
 	}
-	c.Check("ExpandMsgXmd", N+"/input-modified", bytes.Equal(msg, m0) && bytes.Equal(dst, d0), func() string { return desc() + ": msg or dst was written" })
+	c.Check("ExpandMsgXmd", N+"/input-modified", bytes.Equal(whole, w0), func() string {
+		return desc() + ": msg, dst or the bytes behind them were written (dst, msg and a canary are laid out in one array)"
+	})
 	if werr != nil {
 		c.Check("ExpandMsgXmd", N+"/missing-error/"+cls, err != nil, func() string {
 			return desc() + fmt.Sprintf(": RFC 5.3.1 step 2 aborts (%v), the library returned %d bytes and no error", werr, len(got))
@@ -207,6 +227,8 @@ func run[E any, P fields.Ptr[E]](c *mon.Ctx, f *fields.Field[E, P]) {
 		c.Class(N + "/Hash/" + cls + "/" + dstClass(len(dst)) + "/" + msgClass(len(msg)))
 		want, werr := oh2c.HashToField(msg, dst, count, q, 1)
 		m0, d0 := append([]byte{}, msg...), append([]byte{}, dst...)
+		msg, dst, whole := hostileLayout(msg, dst)
+		w0 := append([]byte{}, whole...)
 		desc := func() string {
 			return fmt.Sprintf("%s.Hash(msg=%s, dst=%s, count=%d) [L=%d, len_in_bytes=%d]", N, hx(m0), hx(d0), count, L, n)
 		}
@@ -217,7 +239,9 @@ func run[E any, P fields.Ptr[E]](c *mon.Ctx, f *fields.Field[E, P]) {
 			c.Eval("Hash", 1)
 			return
 		}
-		c.Check("Hash", N+"/Hash/input-modified", bytes.Equal(msg, m0) && bytes.Equal(dst, d0), func() string { return desc() + ": msg or dst was written" })
+		c.Check("Hash", N+"/Hash/input-modified", bytes.Equal(whole, w0), func() string {
+			return desc() + ": msg, dst or the bytes behind them were written (dst, msg and a canary are laid out in one array)"
+		})
 		if werr != nil {
 			c.Check("Hash", N+"/Hash/missing-error/"+cls+"/"+dstClass(len(dst)), err != nil, func() string {
 				return desc() + fmt.Sprintf(": inadmissible (%v) but no error, %d elements returned", werr, len(got))
